@@ -137,6 +137,8 @@ def extra_shapes(seed):
         # a setting whose value contains '=' and ';', a trailer with more than one '>' and '<'
         "%s (1.0-8) unstable; urgency=low, vcs=https://h/?p=x;a=b" % p,
         " -- A \"-->\" B <x> <a@b.c>  Mon, 01 Jan 2024 00:00:00 +0000",
+        # a date the trailer syntax accepts although no calendar knows it (the parser keeps the text)
+        " -- A B <a@b.c>  Lun, 31 Janvier 2024 25:61:00 +9999",
     ]
 
 
